@@ -18,6 +18,9 @@ CHECKS = {
  'C03': ('exploration',
          "Held on the executions explored: every compare-and-swap call, attribute write and committed row change of workflow/task/action state, accepted flag and output is judged online against the transition table of the statement, while operator commands and stale events (pause, resume, stop x3, rerun, skip, on_action_update, late/second results) are injected at unit boundaries of generated runs.",
          "runtime monitoring: online trace monitor (lifecycle table) over hooked CAS/attribute/row events under command injection at every unit boundary"),
+ 'C04': ('exploration',
+         "Held on the executions explored: fork/join shapes (all/N/one, nested, fed through on-error/on-complete/non-firing guards, dead chains longer than the engine's search depth, dead cycles) and requires-graphs with the asynchronous branch results held by the harness and delivered in every order (k! for small k) under several transaction orders; monitors: join leaves WAITING only with the required number of committed routed inbound completions, one execution and one start per join and run, no join WAITING forever, reverse tasks start only after their requires succeeded and only inside the target's closure.",
+         "runtime monitoring: join-start / requires trace monitors over per-commit row diffs, with harness-controlled completion orders of asynchronous branches"),
  'C06': ('fault_enumeration',
          "Held on the fault sequences enumerated: for each recorded message of a base run a copy is delivered at later unit boundaries of the identical schedule (start_task, on_action_complete incl. sub-workflow results, start_workflow with id), run_action is redelivered with/without losing the original x safe-rerun; oracle: normal form and row counts equal to the duplicate-free run, run-once and accepted-once counters.",
          "runtime monitoring: offline comparison of recorded histories (duplicate-free vs duplicated run) + exactly-once counters over ACTION_RUN / RPC_SEND events under message duplication at every position"),
